@@ -16,7 +16,9 @@ RULE = ("angles: dyadic multiples of pi (n*pi/2^d, d up to 40), +-0, +-tiny (1e-
         "uniform and log-uniform random, each with tolerances 1e-2..1e-9 (direct calls) or the SDK default tolerance "
         "(q.rot_X/Y/Z(angle=..) through a connection, instructions read from the flushed subroutine). Oracle: every step "
         "has integer 0<=n<=255 and 0<=d<=255, at most 64 steps, and |sum n*pi/2^d - angle| mod 2pi <= tol + ulp(angle) "
-        "+ 1e-14 (the input float itself is only known to one ulp). Non-trivial = angle not within tol of 0 mod 2pi "
+        "+ 1e-14 (the input float itself is only known to one ulp)."
+        ' The SDK route also passes explicit (n, d) together with angle (documented as ignored), including angles of exactly zero. '
+        "Non-trivial = angle not within tol of 0 mod 2pi "
         "(at least one step expected); distinct = distinct (angle, tol, route).")
 ASSUMPTIONS = [
     "angle error is measured with 60-digit decimal arithmetic; one ulp of the input angle plus 1e-14 is allowed for float reduction of the input",
